@@ -202,7 +202,7 @@ def clear_complete(repo: Repo) -> RuleRun:
                     tgt_attr = t.attr
         if tgt_attr is None:
             continue
-        filled_by_asm = tgt_attr in _mutated_attrs(repo, asm, mesh)
+        filled_by_asm = any(tgt_attr in _mutated_attrs(repo, part_, mesh) for part_ in [asm] + [f_ for f_ in asm_closure if f_.cls is mesh and f_.name not in ("clear", "__init__", "assemble")])
         r.check(
             filled_by_asm,
             clear,
@@ -213,7 +213,9 @@ def clear_complete(repo: Repo) -> RuleRun:
             key=f"overreach:Mesh.{tgt_attr}",
         )
     # containers of the mesh itself that assemble() fills in place (a record of what was assembled): clear() must empty them
-    own_filled = {a_ for a_ in _mutated_attrs(repo, asm, mesh) if a_ not in lists and not a_.endswith("(dict-merge)")}
+    # (assemble() itself and the private methods of Mesh it hands the work to; clear() - called when an assembly fails - excepted)
+    asm_parts = [asm] + sorted((f_ for f_ in asm_closure if f_.cls is mesh and f_ is not asm and f_.name not in ("clear", "__init__", "assemble")), key=lambda f_: f_.qualname)
+    own_filled = {a_ for part_ in asm_parts for a_ in _mutated_attrs(repo, part_, mesh) if a_ not in lists and not a_.endswith("(dict-merge)")}
     emptied = set()
     for n in walk_shallow(clear.node):
         if isinstance(n, ast.Call) and isinstance(n.func, ast.Attribute) and n.func.attr == "clear":
@@ -236,7 +238,9 @@ def clear_complete(repo: Repo) -> RuleRun:
                         out[t.attr] = n
         return out
 
-    asm_assigned, clear_assigned = assigned(asm), assigned(clear)
+    asm_assigned, clear_assigned = {}, assigned(clear)
+    for part_ in asm_parts:
+        asm_assigned.update(assigned(part_))
     for a_, node_ in sorted(asm_assigned.items()):
         r.check(
             a_ in clear_assigned,
